@@ -64,7 +64,8 @@ Definition normal_cmd (c : Scte.command) : Prop :=
   | CTime h p => h = true /\ p < 8589934592     (* the decoder refuses a time_signal without time; 0x7E otherwise *)
   | CInsert i => normal_insert i
   end.
-Definition normal_desc (d : segdesc) : Prop :=
+(* lenok: the descriptor fits its 8-bit descriptor_length *)
+Definition normal_desc_gen (lenok : Prop) (d : segdesc) : Prop :=
   d_event_id d < 4294967296 /\
   (d_cancel d = false ->
      (d_program_seg d = false ->
@@ -78,7 +79,8 @@ Definition normal_desc (d : segdesc) : Prop :=
      (d_upid_type d <> SegUPIDMID -> d_mid d = [] /\ len (d_upid d) < 256 /\ is_bytes (d_upid d)) /\
      d_type d < 256 /\ d_seg_num d < 256 /\ d_segs_expected d < 256 /\
      d_sub_seg_num d < 256 /\ d_sub_segs_expected d < 256 /\
-     len (seg_data d) < 258).
+     lenok).
+Definition normal_desc (d : segdesc) : Prop := normal_desc_gen (len (seg_data d) < 258) d.
 
 (* the states on which UpdateData is the canonical serialiser (and the decoder an inverse):
    every field within its wire width, the encoder's 10-bit section_length sufficient, the
